@@ -210,8 +210,72 @@ def run_views(ctx: Ctx) -> None:
                 for q in range(2):
                     if not teq(r2[0, q], apply(want2, pw[0, q])):
                         return False, "points(grid=g2, axes=GRID, to_axes=WORLD) does not route through both grids' maps"
+                # dense field on another grid: the same world map, expressed in that grid's cube
+                cube2 = "CUBE_CORNERS" if not ac else "CUBE"
+                c2w = as_h(it.method(g2, "transform", env.ax(cube2), W))
+                w2c = as_h(it.method(g2, "transform", W, env.ax(cube2)))
+                map2 = compose(w2c, compose(want_map, c2w))
+                u2 = it.method(t, "disp", g2)
+                co2 = identity_coords(tuple(reversed(env.size)), not ac).reshape([-1, D])
+                uu2 = u2[0].permute(list(range(1, D + 1)) + [0]).reshape([-1, D])
+                for q in range(co2.shape[0]):
+                    if not teq(uu2[q], apply(map2, co2[q]).sub(co2[q])):
+                        return False, (f"disp(grid2) on a grid with a different domain is not the same world-space map expressed in grid2's "
+                                       f"cube coordinates (sample {q})")
                 return True, ""
             _guard(ctx, "T67.views", f"{name}:D={D}", fF, f"class={name} D={D}", th)
+
+
+def run_param_matrix(ctx: Ctx) -> None:
+    """parameter -> matrix maps of the elementary linear models against their textbook definitions."""
+    from ..symt import sfunc
+    from .t2_rot import elem, quat_ref
+    prog = ctx.prog
+    ctx.rule("T67.param-matrix", "tensor() of each elementary linear model with symbolic (buffer) parameters p is its defining matrix: Translation "
+                                 "(I | p); EulerRotation [[c,-s],[s,c]] (2-D) / product of elementary rotations in the stored order (3-D); "
+                                 "QuaternionRotation the Hamilton matrix of (w,x,y,z); IsotropicScaling k I; AnisotropicScaling diag(k); "
+                                 "Shearing unit upper triangular with tan(a) at (0,1),(0,2),(1,2); HomogeneousTransform p itself")
+    for name, dims in LINEAR[:7]:
+        ci = _linear_cls(ctx, name)
+        fT = prog.find_method(ci, "tensor")
+        ctx.fn(fT)
+        for D in dims:
+            def th(name=name, D=D, ci=ci):
+                env = LEnv(ctx, D, symbolic_grid=False)
+                it = env.it
+                t = _mk_linear(env, name, "buffer")
+                env.set_params(t)
+                p = [to_rat(v) for v in it.method(t, "data").flat()]
+                M = as_h(it.method(t, "tensor")[0])
+                if name == "Translation":
+                    want = as_h(STensor.from_flat(p, [D]))
+                elif name == "EulerRotation":
+                    cs = [(sfunc("cos", a), sfunc("sin", a)) for a in p]
+                    if D == 2:
+                        c, s_ = cs[0]
+                        want = STensor.from_nested([[c, -s_], [s_, c]])
+                    else:
+                        order = it.call(prog.func("deepali.core.affine", "euler_rotation_order"), it.getattr(t, "order"), ndim=3)
+                        want = symt.matmul(symt.matmul(elem(order[0], *cs[0]), elem(order[1], *cs[1])), elem(order[2], *cs[2]))
+                    want = as_h(want)
+                elif name == "QuaternionRotation":
+                    want = as_h(quat_ref(*p))
+                elif name == "IsotropicScaling":
+                    want = as_h(STensor.from_nested([[p[0] if i == j else 0 for j in range(D)] for i in range(D)]))
+                elif name == "AnisotropicScaling":
+                    want = as_h(STensor.from_nested([[p[i] if i == j else 0 for j in range(D)] for i in range(D)]))
+                elif name == "Shearing":
+                    pos = [(0, 1)] if D == 2 else [(0, 1), (0, 2), (1, 2)]
+                    rows = [[Rat.of(1) if i == j else Rat.of(0) for j in range(D)] for i in range(D)]
+                    for (i, j), a in zip(pos, p):
+                        rows[i][j] = sfunc("tan", a)
+                    want = as_h(STensor.from_nested(rows))
+                else:
+                    want = STensor.from_flat(p, [D, D + 1])
+                if not teq(M, want):
+                    return False, f"{name}.tensor() = {tstr(M)[:150]} is not the defining matrix {tstr(want)[:150]}"
+                return True, ""
+            _guard(ctx, "T67.param-matrix", f"{name}:D={D}", fT, f"class={name} D={D}", th)
 
 
 def run_composites(ctx: Ctx) -> None:
